@@ -8,11 +8,32 @@ import time
 import warnings
 
 
+def replay_history(mod, data, detail0):
+    """Re-execute, in THIS one process, the instances the original worker had executed before the failing one, then
+    the failing instance itself; reproduced iff the same discrepancy (key + clause) shows up again."""
+    inp = data["inputs"]
+    work = getattr(mod, "work", None)
+    if work is None or "_item" not in inp:
+        return False, str(detail0) + " | no history replay available"
+    os.environ["VERIF_PROCS"] = "1"
+    for it in inp["_history"]:
+        try:
+            work(it)
+        except Exception:
+            pass
+    out = work(inp["_item"])
+    for c in (out or {}).get("candidates", []):
+        if c["key"] == data["key"] and c["clause"] == data["clause"]:
+            return True, f"after {len(inp['_history'])} preceding operations in the same process: {c['what']}"
+    return False, str(detail0) + f" | not reproduced after replaying {len(inp['_history'])} preceding operations either"
+
+
 def main():
     ap = argparse.ArgumentParser()
     ap.add_argument("pid")
     ap.add_argument("--tier", default=os.environ.get("VERIF_TIER", "quick"), choices=["quick", "thorough"])
     ap.add_argument("--replay")
+    ap.add_argument("--history", action="store_true", help="replay the worker's history before the failing instance")
     ap.add_argument("--only", help="substring filter on instance keys (debugging)")
     args = ap.parse_args()
     warnings.simplefilter("ignore")
@@ -23,7 +44,10 @@ def main():
     mod = importlib.import_module(f"vf.props.{pid.lower()}")
     if args.replay:
         data = json.load(open(args.replay))
-        ok, detail = mod.replay(data)
+        ok, detail = (False, "history mode") if args.history else mod.replay(data)
+        hist = (data.get("inputs") or {}).get("_history")
+        if not ok and hist is not None and (args.history or hist):
+            ok, detail = replay_history(mod, data, detail)
         print(("REPRODUCED " if ok else "NOT-REPRODUCED ") + str(detail)[:1500])
         sys.exit(core.REPRODUCED if ok else core.NOT_REPRODUCED)
     os.environ.setdefault("VERIF_Z3_TIMEOUT_MS", "3000" if args.tier == "quick" else "30000")
